@@ -157,3 +157,19 @@ impl Rng {
         BigUint::from_bytes_le(&self.bytes(n)) % bound
     }
 }
+
+/// Intent log: the case about to be executed is written (and flushed) to $VH_INTENT before the
+/// call, so that a hang or an abort of the process can be attributed to a concrete input.
+pub fn intent(v: &Value) {
+    use std::io::Write;
+    use std::sync::{Mutex, OnceLock};
+    static F: OnceLock<Option<Mutex<std::fs::File>>> = OnceLock::new();
+    let f = F.get_or_init(|| std::env::var_os("VH_INTENT").map(|p| Mutex::new(std::fs::File::create(p).expect("intent file"))));
+    if let Some(m) = f {
+        use std::io::Seek;
+        let mut g = m.lock().unwrap();
+        let _ = g.set_len(0);
+        let _ = g.seek(std::io::SeekFrom::Start(0));
+        let _ = writeln!(g, "{}", v);
+    }
+}
